@@ -7,6 +7,10 @@ behaviour is a false alarm of the machinery; `no-failing-input-found` means a re
 (the price of that tie, DESIGN.md §14.1)."""
 import json, os, shutil, subprocess, sys
 tag = sys.argv[1]
+# BENIGN_VERIF / BENIGN_REPO: a scratch copy of /verif and a scratch worktree of /repo to run the checks in (so that a long
+# round does not occupy /repo); the results are still recorded under /verif/benign
+V = os.environ.get("BENIGN_VERIF", "/verif")
+R = os.environ.get("BENIGN_REPO", "/repo")
 ENV = dict(os.environ, GOFLAGS="-mod=mod", GOPROXY="off", GOSUMDB="off", GOTOOLCHAIN="local")
 def sh(cmd, cwd=None, env=ENV):
     p = subprocess.run(cmd, cwd=cwd, env=env, shell=isinstance(cmd, str), stdout=subprocess.PIPE, stderr=subprocess.STDOUT, text=True, errors="replace")
@@ -34,16 +38,17 @@ for prop in sys.argv[2:]:
             subprocess.run(["git", "-C", "/repo", "worktree", "remove", "--force", wt])
         if not all(res.get(k) for k in ("applies", "builds", "suite_passes")):
             print(sid, "NOT USABLE", res); continue
-        st = subprocess.run(["git", "-C", "/repo", "status", "--porcelain"], capture_output=True, text=True).stdout.strip()
+        st = subprocess.run(["git", "-C", R, "status", "--porcelain"], capture_output=True, text=True).stdout.strip()
         if st:
-            print("refusing: /repo is not clean:", st); sys.exit(2)
-        rc, o = sh(["git", "-C", "/repo", "apply", patch]); assert rc == 0, o
+            print("refusing: %s is not clean:" % R, st); sys.exit(2)
+        rc, o = sh(["git", "-C", R, "apply", patch]); assert rc == 0, o
         try:
-            rc, o = sh(["./check", prop], cwd="/verif", env=dict(os.environ))
+            rc, o = sh(["./check", prop], cwd=V, env=dict(os.environ, VERIF_REPO=R))
         finally:
-            sh(["git", "-C", "/repo", "checkout", "--", "."]); sh(["git", "-C", "/repo", "clean", "-fdq"])
-            # the evidence file written by this run describes a CHANGED tree: put the committed one (unchanged tree) back
-            subprocess.run(["git", "-C", "/verif", "checkout", "--", f"evidence/{prop}.json"])
+            sh(["git", "-C", R, "checkout", "--", "."]); sh(["git", "-C", R, "clean", "-fdq"])
+            if V == "/verif":
+                # the evidence file written by this run describes a CHANGED tree: put the committed one (unchanged tree) back
+                subprocess.run(["git", "-C", "/verif", "checkout", "--", f"evidence/{prop}.json"])
         lines = [l for l in o.splitlines() if l.startswith(("VIOLATION", "KNOWN", "ERROR", "CHECK", prop + ":"))][:6]
         viol = [l for l in lines if l.startswith("VIOLATION")]
         res["check_exit"] = rc
